@@ -409,7 +409,7 @@ CLI_CORRUPTIONS = {
     "views-missing-filter": ("views", GOOD_VIEWS.replace("filter: true\n", "")),
     "views-bad-expression": ("views", GOOD_VIEWS.replace('category == "Food"', 'category == "Food')),
 }
-CLI_COMMANDS = [["up", "--format", "json"], ["up", "--summary"], ["diag"],
+CLI_COMMANDS = [["up", "--format", "json"], ["up", "--summary"], ["up", "-q", "--format", "json"], ["up", "--quiet"], ["diag"],
                 # the other commands that classify with the rules file (run on rules corruptions only: they need not read the views file)
                 ["discover"], ["discover", "--format", "json"], ["explain"], ["explain", "Netflix"], ["explain", "NETFLIX.COM 1", "--amount", "15.99"]]
 RULES_ONLY_COMMANDS = {"discover", "explain"}
